@@ -1,0 +1,41 @@
+//go:build verif
+
+package table
+
+import "github.com/lindb/lindb/pkg/bufioutil"
+
+// VerifC02Entry is one reader-cache entry as seen by the C02 verification harness.
+type VerifC02Entry struct {
+	FileName string
+	Ref      int32
+	Reader   Reader
+}
+
+// VerifC02CacheEntries lists the cache entries in LRU order (most recently used first),
+// under the cache mutex.
+func VerifC02CacheEntries(c Cache) []VerifC02Entry {
+	sc, ok := c.(*storeCache)
+	if !ok {
+		return nil
+	}
+	sc.mutex.Lock()
+	defer sc.mutex.Unlock()
+	var rs []VerifC02Entry
+	for e := sc.cache.evictList.Front(); e != nil; e = e.Next() {
+		ent := e.Value.(*cacheEntry)
+		rs = append(rs, VerifC02Entry{FileName: ent.fileName, Ref: ent.ref.Load(), Reader: ent.reader})
+	}
+	return rs
+}
+
+// VerifC02WrapNewWriter makes NewStoreBuilder call before(fileName) right before the table
+// file is created (after the file number was allocated and marked as pending output).
+// The returned function restores the previous seam value.
+func VerifC02WrapNewWriter(before func(fileName string)) (restore func()) {
+	old := newBufioWriterFunc
+	newBufioWriterFunc = func(fileName string) (bufioutil.BufioWriter, error) {
+		before(fileName)
+		return old(fileName)
+	}
+	return func() { newBufioWriterFunc = old }
+}
